@@ -215,4 +215,11 @@ def step (cmp : Nat → Nat → Int) (m : OrdMap) (op : Op) (refused : Bool) : O
   ({ r.1 with st := r.1.st.map mapStat,
               val := match op with | .remove e => r.1.val.map (fun _ => e) | _ => r.1.val }, r.2)
 
+def run (cmp : Nat → Nat → Int) (m : OrdMap) : List (Op × Bool) → List Out × OrdMap
+  | [] => ([], m)
+  | (op, refused) :: rest =>
+    let r := step cmp m op refused
+    let rs := run cmp r.2 rest
+    (r.1 :: rs.1, rs.2)
+
 end CC.Spec.OrdSet
